@@ -40,6 +40,9 @@ var c08ExtraTypes = []string{"int", "*LInner", "ext.MyInt"}
 
 // c08CompositeExtraTypes: the type of an additional argument is printed as a whole, so named types inside
 // slices, maps and function types must keep (or, for the home package, lose) their qualifier.
+// c08PointerExtraTypes: every level of indirection of an additional argument is part of its type.
+var c08PointerExtraTypes = []string{"**LInner", "***int", "*[]*ext.Inner"}
+
 var c08CompositeExtraTypes = []string{"[]ext.MyInt", "map[LStr][]*LInner", "func(LInt, *ext.Inner) (ext.MyInt, error)"}
 
 func (s c08Shape) legal() bool {
@@ -76,6 +79,9 @@ func (s c08Shape) method() pg.Method {
 		p := pg.Param{Type: c08ExtraTypes[i]}
 		if s.ExtraSet == 1 {
 			p.Type = c08CompositeExtraTypes[i]
+		}
+		if s.ExtraSet == 2 {
+			p.Type = c08PointerExtraTypes[i]
 		}
 		if s.Named {
 			p.Name = fmt.Sprintf("x%d", i)
@@ -338,10 +344,12 @@ func c08All() []c08Shape {
 				s.Alias = false
 			}
 			if ex > 0 && !s.Reverse {
-				s.ExtraSet = 1
-				s.Name = fmt.Sprintf("Convert%04d", n)
-				n++
-				all = append(all, s)
+				for set := 1; set <= 2; set++ {
+					s.ExtraSet = set
+					s.Name = fmt.Sprintf("Convert%04d", n)
+					n++
+					all = append(all, s)
+				}
 			}
 		}
 	}
@@ -350,7 +358,7 @@ func c08All() []c08Shape {
 
 func TestC08(t *testing.T) {
 	env, rec := start(t, "C08", "exploration",
-		"complete enumeration of style{return,arg} x receiver{none,named} x reverse x source{pointer,value} x destination{pointer,value} x error result x 0..3 additional arguments (int, *LInner, ext.MyInt; and again with the unnamed composite types []ext.MyInt, map[LStr][]*LInner, func(LInt, *ext.Inner) (ext.MyInt, error)) x named/unnamed parameters x local/imported source x local/imported destination (2^9 x 4 = 2048 combinations, plus the 1536 with an imported operand again with the operand types imported under an alias that differs from the package name). "+
+		"complete enumeration of style{return,arg} x receiver{none,named} x reverse x source{pointer,value} x destination{pointer,value} x error result x 0..3 additional arguments (int, *LInner, ext.MyInt; and again with the unnamed composite types []ext.MyInt, map[LStr][]*LInner, func(LInt, *ext.Inner) (ext.MyInt, error), and with **LInner, ***int, *[]*ext.Inner) x named/unnamed parameters x local/imported source x local/imported destination (2^9 x 4 = 2048 combinations, plus the 1536 with an imported operand again with the operand types imported under an alias that differs from the package name). "+
 			"Legal combinations are generated in batches of 32 methods and each function's go/types signature must be identical, names included, to the one computed from the README rules; documented-illegal combinations ( :reverse without :style arg or with additional arguments, imported receiver) get a setup file each and must be rejected. "+
 			"Non-trivial: every combination other than the default shape; combinations are distinct by construction.")
 	defer rec.Done()
